@@ -244,19 +244,45 @@ func suiteT1cs(o *suiteOut, r *rng, tier string, n int) {
 	}
 	// subroutine nesting: depth limit and call fan-out (time must stay bounded)
 	for depth := 1; depth <= 12; depth++ {
-		var subrs [][]byte
+		// the chain uses the entries 0, 1, 2, 4, 5, ...: entry 3 is predefined (does nothing)
+		idx := func(i int) int {
+			if i >= 3 {
+				return i + 1
+			}
+			return i
+		}
+		subrs := make([][]byte, idx(depth-1)+1)
+		for i := range subrs {
+			subrs[i] = cat(ret)
+		}
 		for i := 0; i < depth; i++ {
 			if i == depth-1 {
-				subrs = append(subrs, cat(csInt(1), csOp(opHlineto), ret))
+				subrs[idx(i)] = cat(csInt(1), csOp(opHlineto), ret)
 			} else {
-				nx := i + 1
-				if nx == 3 {
-					nx = 3 // predefined: does nothing
-				}
-				subrs = append(subrs, cat(csInt(nx), csOp(opCallsubr), ret))
+				subrs[idx(i)] = cat(csInt(idx(i+1)), csOp(opCallsubr), ret)
 			}
 		}
-		csCase(o, subrs, cat(hsbw, csInt(5), csInt(5), csOp(opRmoveto), csInt(0), csOp(opCallsubr), end), true)
+		code := cat(hsbw, csInt(5), csInt(5), csOp(opRmoveto), csInt(0), csOp(opCallsubr), end)
+		csCase(o, subrs, code, true)
+		if depth <= 10 {
+			// Type 1 Font Format, 6.6: calls may be nested 10 deep
+			font, err, _ := readFont(buildCSFont(subrs, code, 4, "clear"))
+			hasLine := false
+			if err == nil && font.Glyphs["g"] != nil {
+				for _, c := range font.Glyphs["g"].Cmds {
+					hasLine = hasLine || c.Op == type1.OpLineTo
+				}
+			}
+			if !hasLine {
+				got := "missing"
+				if err != nil {
+					got = err.Error()
+				} else if font.Glyphs["g"] != nil {
+					got = glyphLine(font.Glyphs["g"])
+				}
+				o.fail("C06", "subroutine calls nested up to 10 deep are executed", fmt.Sprintf("cs %s %s", hexList(subrs), hx(code)), "a glyph with the line drawn by the innermost subroutine", got)
+			}
+		}
 		o.count("subroutine nesting depth")
 	}
 	csCase(o, [][]byte{cat(csInt(0), csOp(opCallsubr), ret)}, cat(hsbw, csInt(0), csOp(opCallsubr), end), true) // self-recursion
